@@ -208,13 +208,6 @@ DIRECTED = [
     # replaced LAST component: the O_NOFOLLOW / type check case (safe)
     [2, SEC | PERM | TIME, 0o22, [], [[T_DIR, b"d", b"", 0o700, 12345, b""], [T_SYMLINK, b"d", b"../outside/sub", 0o777, 1, b""]]],
     [2, SEC | PERM | TIME, 0o22, [], [[T_DIR, b"d/", b"", 0o700, 12345, b""], [T_SYMLINK, b"d", b"/outside/sub", 0o777, 1, b""]]],
-    # spellings of the directory name under which the fix-up is recorded (raw archive name): every one must be
-    # normalised before the O_NOFOLLOW open at close
-] + [
-    [2, SEC | PERM | TIME, 0o22, [], [[T_DIR, b"d" + suf, b"", md, 12345, b""], [T_SYMLINK, b"d", tgt, 0o777, 1, b""]]]
-    for suf in (b"//", b"///", b"////", b"/./", b"//.", b"/.//", b"/././/")
-    for md, tgt in ((0o555, b"../outside/sub"), (0o700, b"/outside/sub"))
-] + [
     # F2: hard link entry carrying data whose target is a symlink: chmod() follows
     [2, SEC | PERM | TIME, 0o22, [], [[T_SYMLINK, b"s", b"/outside/cfile", 0o777, 1, b""], [T_HARDLINK, b"h", b"s", 0o777, 1, b"hello"]]],
     [2, SEC, 0o22, [[2, b"s", b"../outside/cdir", 0]], [[T_HARDLINK, b"h", b"s", 0o700, 1, b"x"]]],
@@ -225,6 +218,12 @@ DIRECTED = [
     [2, SEC, 0o22, [], [[T_SYMLINK, b"x", b"../outside", 0o777, 1, b""], [T_FILE, b"x/sub/evil", b"", 0o644, 1, b"evil"]]],
     # names that clean to "." and friends
     [2, SEC | PERM, 0o22, [], [[T_DIR, b"./", b"", 0o700, 7, b""], [T_FILE, b".", b"", 0o644, 7, b"x"], [T_DIR, b"a/./b//", b"", 0o711, 7, b""], [T_FILE, b"", b"", 0o644, 7, b""]]],
+] + [
+    # spellings of the directory name under which the fix-up is recorded (raw archive name): every one must be
+    # normalised before the O_NOFOLLOW open at close (kept last: the front-end runs take the first directed histories)
+    [2, SEC | PERM | TIME, 0o22, [], [[T_DIR, b"d" + suf, b"", md, 12345, b""], [T_SYMLINK, b"d", tgt, 0o777, 1, b""]]]
+    for suf in (b"//", b"///", b"////", b"/./", b"//.", b"/.//", b"/././/")
+    for md, tgt in ((0o555, b"../outside/sub"), (0o700, b"/outside/sub"))
 ]
 
 def describe_history(c):
